@@ -1099,6 +1099,12 @@ async fn fetch_single_imported_audit(
 
     // Construct a mapping from the foreign criteria namespace into the
     // local criteria namespace based on the criteria map from the config.
+    crate::criteria::check_criteria_table(&audit_file.criteria).map_err(|reason| {
+        FetchAuditError::InvalidCriteriaTable {
+            import_name: name.to_owned(),
+            reason,
+        }
+    })?;
     let foreign_criteria_mapper = CriteriaMapper::new(&audit_file.criteria);
     let foreign_to_local_mapping: Vec<_> = foreign_criteria_mapper
         .all_criteria_names()
